@@ -2,7 +2,9 @@
 # Offline setup: build the Coq development (full .vo), the extracted driver and the harness.
 set -e
 export CARGO_NET_OFFLINE=true
+bash /verif/tools/regen.sh
 cd /verif/harness && cargo build --offline 2>&1 | tail -3
+bash /verif/tools/regen.sh post
 cd /verif/coq && coq_makefile -f _CoqProject -o Makefile >/dev/null
 bash /verif/tools/build_model.sh
 echo setup done
